@@ -488,7 +488,7 @@ func TestUDPWrap(t *testing.T) {
 				if !ev.Thorough() && scenario%4 != shard%4 {
 					continue // the quick tier spreads the four scenarios over the shards
 				}
-				canon := fmt.Sprintf("udp pool=%v: one call pending across 32768 further calls, then a second pending call; release %s first (round %d shard %s)", pool, firstReleased, r, os.Getenv("VERIF_SHARD"))
+				canon := fmt.Sprintf("udp pool=%v: three calls pending across the wrap of the 15-bit identifier, then four more pending calls; release %s first (round %d shard %s)", pool, firstReleased, r, os.Getenv("VERIF_SHARD"))
 				ev.S.Begin("udp-wrap", canon)
 				s := newGatedService()
 				if pool {
@@ -503,11 +503,28 @@ func TestUDPWrap(t *testing.T) {
 				client.UseService(px)
 				id := atomic.AddInt64(&caseSeq, 1)
 				drainArrived()
-				oldTag, newTag := fmt.Sprintf("c%d-old", id), fmt.Sprintf("c%d-new", id)
-				oldDone, newDone := make(chan result, 1), make(chan result, 1)
-				go func() { got, err := px.Gated(oldTag); oldDone <- result{oldTag, got, err} }()
-				problem := waitArrivals(map[string]bool{oldTag: true}, 10*time.Second)
-				// 32767 quick calls from 8 goroutines
+				// three calls with adjacent identifiers stay pending across the wrap, then four more are issued: they
+				// must step over every identifier that is still pending, not just over the first one
+				const nOld, nNew = 3, 4
+				var oldTags, newTags []string
+				for k := 0; k < nOld; k++ {
+					oldTags = append(oldTags, fmt.Sprintf("c%d-old%d", id, k))
+				}
+				for k := 0; k < nNew; k++ {
+					newTags = append(newTags, fmt.Sprintf("c%d-new%d", id, k))
+				}
+				done := map[string]chan result{}
+				problem := ""
+				for _, tag := range oldTags {
+					tag := tag
+					done[tag] = make(chan result, 1)
+					go func() { got, err := px.Gated(tag); done[tag] <- result{tag, got, err} }()
+					// one after the other, so that their identifiers are adjacent
+					if p := waitArrivals(map[string]bool{tag: true}, 10*time.Second); p != "" && problem == "" {
+						problem = p
+					}
+				}
+				// 32768 - nOld quick calls from 8 goroutines: the next identifier is the first old one again
 				var wg sync.WaitGroup
 				var bad atomic.Value
 				var count int64
@@ -517,13 +534,13 @@ func TestUDPWrap(t *testing.T) {
 						defer wg.Done()
 						for {
 							k := atomic.AddInt64(&count, 1)
-							if k > 32767 {
+							if k > 32768-nOld {
 								return
 							}
 							qt := fmt.Sprintf("w%d-%d", id, k)
 							got, err := px.Quick(qt)
 							if err != nil || got != "q:"+qt {
-								bad.Store(fmt.Sprintf("call number %d on the connection passed %q and received %q, %v", k+1, qt, got, err))
+								bad.Store(fmt.Sprintf("call number %d on the connection passed %q and received %q, %v", k+nOld, qt, got, err))
 								return
 							}
 						}
@@ -534,36 +551,39 @@ func TestUDPWrap(t *testing.T) {
 					problem = b.(string)
 				}
 				if problem == "" {
-					go func() { got, err := px.Gated(newTag); newDone <- result{newTag, got, err} }()
-					problem = waitArrivals(map[string]bool{newTag: true}, 10*time.Second)
+					want := map[string]bool{}
+					for _, tag := range newTags {
+						tag := tag
+						want[tag] = true
+						done[tag] = make(chan result, 1)
+						go func() { got, err := px.Gated(tag); done[tag] <- result{tag, got, err} }()
+					}
+					problem = waitArrivals(want, 10*time.Second)
 				}
 				if problem == "" {
-					first, second := oldTag, newTag
-					fd, sd := oldDone, newDone
+					order := append(append([]string{}, oldTags...), newTags...)
 					if firstReleased == "new" {
-						first, second, fd, sd = newTag, oldTag, newDone, oldDone
+						order = append(append([]string{}, newTags...), oldTags...)
 					}
-					for k, step := range []struct {
-						tag string
-						ch  chan result
-					}{{first, fd}, {second, sd}} {
-						release(step.tag)
+					for k, tag := range order {
+						release(tag)
 						select {
-						case r := <-step.ch:
+						case r := <-done[tag]:
 							if r.err != nil || r.got != "r:"+r.tag {
 								problem = fmt.Sprintf("the caller that passed %q received %q, %v (released %d.)", r.tag, r.got, r.err, k+1)
 							}
 						case <-time.After(10 * time.Second):
-							problem = fmt.Sprintf("the caller that passed %q never got its response after its function completed (released %d.)", step.tag, k+1)
+							problem = fmt.Sprintf("the caller that passed %q never got its response after its function completed (released %d.)", tag, k+1)
 						}
 						if problem != "" {
 							break
 						}
 					}
 				}
-				release(oldTag)
-				release(newTag)
-				forget([]string{oldTag, newTag})
+				for _, tag := range append(append([]string{}, oldTags...), newTags...) {
+					release(tag)
+				}
+				forget(append(append([]string{}, oldTags...), newTags...))
 				client.Abort()
 				srv.Close()
 				ev.S.Case("udp-wrap", canon, true, "udp-wrap")
